@@ -239,6 +239,9 @@ def run(chk):
         ("ratios_in_evolve_only", (Q(1), Q(1), Q(1)), (Q(2), Q(3, 2), Q(1, 2)), Q(1), (Q(9), 4), (Q(10**6), 6)),
         ("ratios_in_evolve_only", (Q(1), Q(1), Q(1)), (Q(2), Q(3, 2), Q(1, 2)), Q(1), (Q(10**6), 6), (Q(9), 4)),
         ("unit_ratios", (Q(1), Q(1), Q(1)), (Q(1), Q(1), Q(1)), Q(1), (Q(9), 4), (Q(1000), 5)),
+        # the reference scale lies beyond the displaced matching scale of its own patch: the first segment runs DOWN in scale although the flavour number goes UP (and vice versa)
+        ("first_segment_against_the_flavour_direction", (Q(1), Q(1), Q(1)), (Q(2), Q(3, 2), Q(1, 2)), Q(1), (Q(40), 4), (Q(1000), 5)),
+        ("first_segment_against_the_flavour_direction", (Q(1), Q(1), Q(1)), (Q(2), Q(3, 2), Q(1, 2)), Q(1), (Q(25), 5), (Q(9), 4)),
         ("as_called_by_compute", (Q(9, 4), Q(27, 8), Q(9, 2)), (Q(1), Q(3, 2), Q(2)), Q(9, 4), (Q(9), 4), (Q(10**6), 6)),        # Couplings ratios = matching x xif2
         ("as_called_by_compute", (Q(9, 4), Q(27, 8), Q(9, 2)), (Q(1), Q(3, 2), Q(2)), Q(9, 4), (Q(10**6), 6), (Q(3), 3)),
         ("as_called_by_compute", (Q(3, 2), Q(3, 2), Q(3, 2)), (Q(1), Q(1), Q(1)), Q(3, 2), (Q(9), 4), (Q(1000), 5)),                # xif2 != 1 alone
